@@ -1,9 +1,9 @@
 #!/bin/bash
-# tools/seedverify2.sh <Cxx> <name> : confirm a round-2 seeded change from /tmp/seedout2/<Cxx>/<name> (m3, m4: property-breaking;
+# tools/seedverify2.sh <Cxx> <name> : confirm a seeded change from $SEEDOUT (default /tmp/seedout2)/<Cxx>/<name> (m3, m4: property-breaking;
 # b1: behaviour-preserving) in a scratch worktree of /repo HEAD, then store it under /verif/seeded/<Cxx>-<name>/ with verify.json.
 set -u
 id="$1"; m="$2"
-src="/tmp/seedout2/$id/$m"
+src="${SEEDOUT:-/tmp/seedout2}/$id/$m"
 out="/verif/seeded/$id-$m"
 wt="/tmp/sv/$id-$m"
 export GOFLAGS=-mod=mod GOPROXY=off GOSUMDB=off GOTOOLCHAIN=local
